@@ -487,4 +487,43 @@ def stateAfter {G S P Row} (cp : CompsP G S P Row) (cfg : Cfg) (sched : Sched) (
 def resultSP {G S P Row} (cp : CompsP G S P Row) (seed : Nat) (ts : List Triple) : Result P Row :=
   resultS (cp.clean ts) seed ts
 
+
+/-! ## phase 3: resumed runs (`Experiment.run(result_file=…)` on an existing log)
+
+`Result.from_file` restores the records of an earlier run, `MakeTasks` skips every parameter task whose id
+and every evaluation task whose key is restored, the new records are appended to the log and
+`TransactionResult` reads the whole log. -/
+
+/-- `if eid not in restored_envs`, …, `(eid,lid,vid) not in restored_outs` -/
+def Task.keep (R : Restored) : Task → Bool
+  | .env i _ => decide (i ∉ R.envs)
+  | .lrn i _ => decide (i ∉ R.lrns)
+  | .val i _ => decide (i ∉ R.vals)
+  | .eval ei _ li _ vi _ _ => decide ((ei, li, vi) ∉ R.outs)
+
+/-- what `MakeTasks` learns from the restored Result: the ids / keys that have a row -/
+def restoredOf {P Row} (recs : List (Rec P Row)) : Restored :=
+  { envs := (recs.filterMap Rec.t1?).map (·.1), lrns := (recs.filterMap Rec.t2?).map (·.1),
+    vals := (recs.filterMap Rec.t3?).map (·.1), outs := (recs.filterMap Rec.t4?).map (·.1) }
+
+def chunksOn {S P Row} (c : Comps S P Row) (cfg : Cfg) (tasks : List Task) : List (List Task) :=
+  (chunkTasks cfg.mt c.chunkKey tasks).map procOrder
+
+/-- the events of processing an arbitrary task list under a configuration and a schedule -/
+def runEventsOn {S P Row} (c : Comps S P Row) (cfg : Cfg) (picks : List Nat) (seed : Nat)
+    (tasks : List Task) : List (Ev P Row) × Heap S :=
+  if cfg.multi then
+    (interleave ((chunksOn c cfg tasks).map (fun ch => (runSeq c seed c.init ch).1)) picks, c.init)
+  else
+    runSeq c seed c.init (chunksOn c cfg tasks).flatten
+
+/-- the tasks a run resumed from the log `old` still has to do -/
+def resumedTasks {P Row} (old : List (Rec P Row)) (ts : List Triple) : List Task := makeTasks (restoredOf old) ts
+
+/-- the Result of a run resumed from a log that holds the experiment record and the records `old` of an
+earlier run (in any order): the new records are appended, the whole log is read -/
+def runResumed {S P Row} (c : Comps S P Row) (cfg : Cfg) (picks : List Nat) (seed : Nat) (ts : List Triple)
+    (old : List (Rec P Row)) : Result P Row :=
+  result (Rec.T0 (metaOf seed ts) :: (old ++ (runEventsOn c cfg picks seed (resumedTasks old ts)).1.filterMap Ev.rec?))
+
 end Coba.C01
